@@ -369,5 +369,6 @@ func runC16(ctx *core.Ctx) {
 		c := genC16(core.CaseRef{Stream: "c16seq", Index: i}, r)
 		execC16(ctx, c)
 	})
+	c16MultiStream(ctx)
 	runC16ConcPhase(ctx, nConc)
 }
